@@ -166,6 +166,15 @@ class Harness(object):
         except Exception as e:  # noqa
             self.report("load_crash", "%s: %s" % (type(e).__name__, e), case)
             return
+        # the caller's application map is the caller's: the same after the call (whether it returned or gave up), so that loading
+        # it again - on this or another controller - asks for the same cores
+        for label in sorted(case["targets"]):
+            want = {chip: set(cores) for chip, cores in case["targets"][label].items()}
+            if amap.get(paths[label]) != want:
+                return self.report("argument_modified", "load_application changed the application map it was given: %r asked for %r, afterwards the map says %r" % (
+                    label, short({paths[label]: want}), short({paths[label]: amap.get(paths[label]) or {}})), case)
+        if len(amap) != len(case["targets"]):
+            return self.report("argument_modified", "load_application changed the keys of the application map it was given", case)
         n_tries = 2 if case["n_tries"] is None else case["n_tries"]
         self.distinct.add(describe_key(case))
         # known defect D11: another core of the same application already waits -> the count-based check is fooled;
